@@ -31,11 +31,18 @@ def all_columns():
     return config['output_data_elements']
 
 
+# text that spreadsheet / database tooling gives a meaning to: in a CSV cell it is just text
+WORDS = ['NULL', 'None', 'null', 'NONE', 'N/A', 'nan', 'NaN', 'TRUE', 'False', '#N/A', '-', '0', '00', '=1+1', '+1', '@x', "'1",
+         'inf', '1e5', '0x10', ' ', '""']
+
+
 def gen_cell(rng, col, codec, pkg):
     special = [',', '"', ' ', '""', "'", ';', ', ', '" "']
     if col == 'MTI':
         return iu.text(rng, codec, 4, 'digits')
     if col.startswith('PDS'):
+        if rng.random() < 0.08:
+            return rng.choice(WORDS)
         n = rng.choice([1, 2, 5, 30, rng.randrange(1, 200)])
         return tweak(rng, iu.text(rng, codec, n), special)
     fc = pkg[col[2:]]
@@ -49,6 +56,8 @@ def gen_cell(rng, col, codec, pkg):
     if fc['field_type'] in ('LLVAR', 'LLLVAR'):
         mx = 99 if fc['field_type'] == 'LLVAR' else 999
         n = rng.choice([1, 2, 10, mx, rng.randrange(1, mx + 1), rng.randrange(1, 25)])
+        if not fc.get('field_processor') and rng.random() < 0.08:
+            return rng.choice(WORDS)
         if fc.get('field_processor') == 'PDS':
             ents = [(rng.randrange(10000), tweak(rng, iu.text(rng, codec, rng.randrange(0, 20)), special))
                     for _ in range(rng.randrange(1, 4))]
